@@ -330,7 +330,7 @@ fn explore(run: &mut Run, p: &Providers, grids: &[Vec<u64>], st: &State, cfg: Co
     let cands = candidates(st, cfg);
     // cells per draw: at least as many as any single draw can have alternatives
     // (<= 4 kinds, <= characters + 1 positions, <= 3 edit strings)
-    let k = (refs::chars(&st.word, cfg.g).len() + 1).max(4);
+    let k = (refs::chars(&st.word, cfg.g).len() + 1).max(4).min(GRID_CAP.load(std::sync::atomic::Ordering::Relaxed));
     let grid = &grids[k.min(grids.len() - 1)];
     let mut reached = BTreeSet::new();
     let mut stack: Vec<Vec<u64>> = vec![vec![]];
@@ -359,6 +359,10 @@ fn explore(run: &mut Run, p: &Providers, grids: &[Vec<u64>], st: &State, cfg: Co
     run.count(&format!("states whose calls make at most {max_draws} draws"));
     reached
 }
+
+/// cells per random draw are capped at this number (40 = the largest grid built; the long phase uses
+/// a coarser grid: its positions are then a regular sample of the word, stated in the bounds)
+static GRID_CAP: std::sync::atomic::AtomicUsize = std::sync::atomic::AtomicUsize::new(40);
 
 struct UnitDesc {
     word: String,
@@ -460,6 +464,37 @@ fn main() {
     );
     run.assumptions.push("rand 0.9: random_range / WeightedIndex / random::<f64>() consume one word per draw and are monotone in it (srng::selftest, and the same check for the larger grids, run at start)".into());
 
+    // long words: character counts around the powers of two a size threshold would sit at; one call
+    // per random stream (no chains), every single kind and all kinds together, no exclusions and
+    // exclusions at the start, in the middle and at the end; the positions a draw can choose are a
+    // regular grid of 12 cells per draw (the short words above cover every position)
+    {
+        let lens = tu_verif::enumerate::threshold_lengths(run.pick(6, 8));
+        run.bounds.insert("long_phase".into(), json!(format!("character counts {lens:?} x 2 repeated patterns x use_graphemes x kinds {{each alone, all}} x providers {{context-full, mock-always}} x exclusions {{none, start+middle+end}} x random streams on a 12-cell grid per draw")));
+        for (k, n) in lens.iter().enumerate() {
+            if !run.unit((all.len() + k) as u64) {
+                continue;
+            }
+            GRID_CAP.store(12, std::sync::atomic::Ordering::Relaxed);
+            for pat in [&["a", "b"][..], &["a", "ä", "e\u{301}", "b"][..]] {
+                let word = tu_verif::enumerate::repeat_symbols(pat, *n);
+                for g in [false, true] {
+                    let nch = refs::chars(&word, g).len();
+                    for kinds in [1u32, 2, 4, 8, 15] {
+                        for provider in [0usize, 2] {
+                            let cfg = Config { g, kinds, provider, full_delete: false };
+                            for excl in [BTreeSet::new(), [0, nch / 2, nch - 1].into_iter().collect::<BTreeSet<usize>>()] {
+                                let st = State { word: word.clone(), excl };
+                                explore(&mut run, &provs, &grids, &st, cfg, &[]);
+                                run.tick();
+                            }
+                        }
+                    }
+                }
+            }
+            GRID_CAP.store(40, std::sync::atomic::Ordering::Relaxed);
+        }
+    }
     for (idx, u) in all.iter().enumerate() {
         if !run.unit(idx as u64) {
             continue;
